@@ -2,6 +2,7 @@
 from vf.core import Gen
 
 META = dict(
+    technique='solver-based bounded symbolic execution of the real code (CrossHair + z3), counterexample replay; the stale-lock condition runs its solver-chosen inputs outside the tracer (filelock consults pid/time)',
     functions_encoded=["pydra.engine.job.Job.run / run_async (ordering of lock, _populate_filesystem, body, save, record_error, info-file "
                        "unlink)", "pydra.engine.result.save", "load_result (retry on truncated pickle)", "Job.result / Job.done",
                        "Submitter.__call__ / expand_workflow (resubmission)"],
